@@ -27,8 +27,13 @@ for pth in sorted(glob.glob(os.path.join(VERIF, "mutants", "*.patch"))):
         continue
     caught = {}
     try:
-        for p in PROPS:
-            c = subprocess.run([os.path.join(VERIF, "bin", "check"), p], capture_output=True, text=True)
+        def one(p):
+            return p, subprocess.run([os.path.join(VERIF, "bin", "check"), p, "--no-evidence"], capture_output=True, text=True)
+        first = [one(PROPS[0])]   # warms the fact cache for this tree
+        from concurrent.futures import ThreadPoolExecutor
+        with ThreadPoolExecutor(8) as ex:
+            rest = list(ex.map(one, PROPS[1:]))
+        for p, c in first + rest:
             if c.returncode == 1:
                 caught[p] = re.findall(r"^  key=(.*)$", c.stdout, re.M)[:4]
             elif c.returncode != 0:
